@@ -76,11 +76,15 @@ class Deep:
         """Shutdown deep."""
         if not self.started:
             return
-        self.trigger_handler.shutdown()
-        self.task_handler.flush()
-        self.poll.shutdown()
-        for plugin in self.config.plugins:
-            plugin.shutdown()
+        # every step is attempted even if an earlier one fails (a failed delivery, an unreachable service or a
+        # broken plugin must not leave the trace hooks installed, the poll timer running or other plugins open)
+        steps = [self.trigger_handler.shutdown, self.task_handler.flush, self.poll.shutdown]
+        steps += [plugin.shutdown for plugin in self.config.plugins]
+        for step in steps:
+            try:
+                step()
+            except Exception:
+                deep.logging.exception("Error during shutdown step %s", step)
         deep.logging.info("Deep is shutdown.")
         self.started = False
 
